@@ -163,7 +163,7 @@ class add_constructor_plugins:
     def ensures(c, entry_point_group, loader):
         eps = c.ctx.ghost.get("c18_entry_points")
         done = c.loop_done(0)
-        if getattr(c, "mode", None) != "prove":
+        if getattr(c, "mode", None) != "prove" or getattr(c.ctx, "concrete", False):
             return {}         # at a call site: the per-entry-point facts live in the iteration contract; a caller learns nothing it could misuse
         return {"the-groups-entry-points-are-read-once-and-every-one-gets-its-iteration": c.And(c.event_at(0) == c.event("get_entrypoints", entry_point_group), done == eps.t) if done is not None and eps is not None else False}
 
